@@ -40,3 +40,56 @@ Theorem C02_in_out : forall uw paths,
   Forall (fun p => p <> []) paths -> sh_words uw (nj_in_out paths) = Some paths.
 Proof. exact in_out_words. Qed.
 Print Assumptions C02_in_out.
+
+(* ---------------------------------------------------------------------------------------------------------------
+   Phase 2: the manifest STRUCTURE is read by the model too (Ninja/NinjaManifest.v: parse_manifest, command_of),
+   the text layout is the W model of NinjaFile.write (Ninja/NinjaFileWrite.v). *)
+From BFG Require Import Graph.BackendAgree Ninja.NinjaManifest Ninja.NinjaFileWrite Ninja.NinjaManifestProofs.
+
+(* channel B at the level of the whole build.ninja text: for the text NinjaFile.write produces for
+   writer.py command_build (rule command / console_command with command = ${cmd}, edge binding cmd = words, optional
+   description, pool = console and ninja_required_version), the parser succeeds and the command Ninja runs for every
+   output is split by sh into exactly the command words.
+   Guards: the build.bfg path has no newline; outputs / inputs are non-empty names without newline and |
+   (path_ok); phony = false (the PHONY helper edge is covered by the run-time oracle only). *)
+Theorem C02_manifest_cmd : forall uw bfg outs ins imp oo ws console desc text o,
+  has_nl bfg = false ->
+  Forall (fun p => path_ok p = true) outs -> Forall (fun p => path_ok p = true) ins ->
+  Forall (fun p => path_ok p = true) imp -> Forall (fun p => path_ok p = true) oo -> In o outs ->
+  nf_write uw (w_command_build bfg outs ins imp oo ws console false desc) = Some text ->
+  exists m cmd, parse_manifest text = Some m /\ command_of m o = Some cmd /\ sh_words uw cmd = Some ws.
+Proof. exact manifest_cmd. Qed.
+Print Assumptions C02_manifest_cmd.
+
+Example C02_manifest_cmd_nonvacuous :
+  let uw := fun _ : char => false in
+  let ws := ([[99; 99]; [45; 68; 70; 61; 97; 35; 98]; [105; 116; 39; 115]; [36; 72]; [97; 32; 98]]%N : list str) in
+  let outs := ([[111; 32; 49]; [111; 36; 50]]%N : list str) in
+  exists text m cmd,
+    nf_write uw (w_command_build [98; 46; 98; 102; 103]%N outs [[105; 58; 110]%N] [] [[120]%N] ws true false (Some [100; 32; 36; 120]%N)) = Some text /\
+    Forall (fun p => path_ok p = true) outs /\
+    parse_manifest text = Some m /\ command_of m [111; 36; 50]%N = Some cmd /\ sh_words uw cmd = Some ws /\
+    description_of m [111; 32; 49]%N = Some [100; 32; 36; 120]%N.
+Proof.
+  eexists. eexists. eexists. split; [vm_compute; reflexivity|]. split; [repeat constructor|].
+  split; [vm_compute; reflexivity|]. split; [vm_compute; reflexivity|]. split; vm_compute; reflexivity.
+Qed.
+
+(* an edge binding always wins over a file-level variable of the same name (whatever the file scope holds, and
+   whatever the rule binds under that name); in / out are the only names that precede edge bindings *)
+Theorem C02_edge_shadows_file : forall f esc file file' rb e n v,
+  str_eqb n s_in = false -> str_eqb n s_out = false -> lookup_val (e_binds e) n = Some v ->
+  edge_lookup (S f) esc file rb e n = Some v /\ edge_lookup (S f) esc file' rb e n = Some v.
+Proof. exact edge_shadows_file. Qed.
+Print Assumptions C02_edge_shadows_file.
+
+(* x = file / rule r: command = echo $x / build o: r with x = edge  -> echo edge ; build p: r -> echo file *)
+Example C02_edge_shadows_file_nonvacuous :
+  let text := ([120; 32; 61; 32; 102; 105; 108; 101; 10;
+                114; 117; 108; 101; 32; 114; 10; 32; 32; 99; 111; 109; 109; 97; 110; 100; 32; 61; 32; 101; 99; 104; 111; 32; 36; 120; 10;
+                98; 117; 105; 108; 100; 32; 111; 58; 32; 114; 10; 32; 32; 120; 32; 61; 32; 101; 100; 103; 101; 10;
+                98; 117; 105; 108; 100; 32; 112; 58; 32; 114; 10]%N : str) in
+  exists m, parse_manifest text = Some m /\
+            command_of m [111]%N = Some [101; 99; 104; 111; 32; 101; 100; 103; 101]%N /\
+            command_of m [112]%N = Some [101; 99; 104; 111; 32; 102; 105; 108; 101]%N.
+Proof. eexists. split; [vm_compute; reflexivity|]. split; vm_compute; reflexivity. Qed.
